@@ -48,12 +48,13 @@ ASSUMPTIONS = {
         "tool defect worked around (DESIGN.md §9.2b): Kani 0.68 / CBMC 6.11 lose a write made through `&mut arr[i].field_array` for an inline array of structs and symbolic i; the stand-in map takes such references at constant indices only",
     ],
     "C08": [
-        "BOUNDED: delete_samples is checked in two halves for 3 samples (distinct symbolic names, duplicate-free delete lists of 0..=3 names) and 1 split k-mer x 3 samples (index lists [1], [0,2]; thorough adds [0], [2], [0,1])",
+        "BOUNDED: delete_samples is checked in two halves for 3 samples (distinct symbolic names, duplicate-free delete lists of 0..=3 names) and 1 split k-mer x 3 samples (index lists [0], [0,2]; thorough adds [1], [2], [0,1])",
         "R3 (unit deletenames_k, assumed contracts on dependencies): String as a value compared / cloned / taken, &str as a literal with to_string(), hashbrown::HashSet as a duplicate-free vector (new / insert / contains / remove / is_empty), Vec as a sequence (inline array of <= 4), MergeSkaArray reduced to `names` and nsamples(); panic! -> the refusal is noted and the fragment returns",
         "the two halves are joined by (idx_list, new_names): the harness of the column half feeds it the lists the name half is checked to produce (ascending indices, kept names in order); that the real function passes them on unchanged is the verbatim text between the two fragments (none: the cut is at a statement boundary)",
         "update_counts is stubbed in the column half (recording stub); what it does - drop split k-mers without any sample, recount - is the bounded check bounded_update_counts_1x2 (shared with C06)",
         "the Kani wrapper harness replaces MergeSkaArray::delete_samples and ::save by recording stubs: it checks only order, number and arguments of the calls generic_modes::delete makes; output name already ending in .skf (the other branch is format!)",
-        "not decided: get_input_list (names on the command line / one per line in a file: String splitting and file I/O), duplicate names, load/save (C09)",
+        "names file: the head of main()'s Delete arm is checked to call the name-list reader (both readers replaced by recording functions through name resolution in the harness module); name_from_line is checked on lines of 2-3 bytes over {a, b, space, tab} (BOUNDED); the loop of get_name_list over the lines of the file (File, BufRead) is unverified glue",
+        "not decided: names on the command line (they still pass through read_input_fastas: a trailing .fa/.fasta/.fastq(.gz) and a directory prefix are stripped), duplicate names, load/save (C09)",
     ],
     "C12": KMER_COMMON + [
         "not decided: KmerFilter::filter's hashbrown count table (the `== min_count` threshold); the < 0.1% collision statement is probabilistic",
